@@ -42,7 +42,7 @@ class _LMRFGammaPair(_ConjugatePair):
         if not self.target.prior.dim == 1:
             raise ValueError("Approximate conjugate sampler only works with univariate Gamma prior")
         
-        if np.sum(self.target.likelihood.distribution.location) != 0:
+        if np.any(self.target.likelihood.distribution.location != 0): # (a sum hides locations whose entries cancel)
             raise ValueError("Approximate conjugate sampler only works with zero mean LMRF likelihood")
         
         key, value = _get_conjugate_parameter(self.target)
